@@ -312,10 +312,15 @@ fn gen_y(rng: &mut StdRng, x: &[Vec<i64>], kind: usize) -> Vec<i64> {
 
 const FAMS: [&str; 5] = ["dense", "bigmean", "collinear", "pm1", "zeros"];
 
-fn gen_case(rng: &mut StdRng, big: bool, want_rank: bool, no_const: bool, colscale: bool) -> Option<Case> {
+/// `single` = the case is meant for f32: no column scaling and only the families whose
+/// conditioning is far below 1/u for single precision (the statement's "condition number
+/// <= 1e6, column scales 1e-2..1e3" domain is f64 territory: with u = 6e-8 nothing can be
+/// promised there, and the SVD solver is only norm-wise, not column-wise, backward stable).
+fn gen_case(rng: &mut StdRng, big: bool, want_rank: bool, no_const: bool, colscale: bool, single: bool) -> Option<Case> {
     let p: usize = if big { rng.gen_range(1..=6) } else { rng.gen_range(1..=4) };
     let n: usize = if big { rng.gen_range(p + 1..=p + 18) } else { rng.gen_range(p + 1..=12) };
-    let fam = FAMS[rng.gen_range(0..FAMS.len())];
+    let fam = if single { ["dense", "pm1", "zeros"][rng.gen_range(0..3)] } else { FAMS[rng.gen_range(0..FAMS.len())] };
+    let colscale = colscale && !single;
     let x = gen_x(rng, n, p, fam);
     if want_rank && !full_rank_aug(&x) {
         return None;
@@ -395,7 +400,8 @@ fn gen(path: &str) {
     let mut made = 0;
     while made < n_ols {
         let big = thorough && rng.gen_bool(0.3);
-        let c = match gen_case(&mut rng, big, true, false, true) {
+        let single = (made + 1) % 4 == 0;
+        let c = match gen_case(&mut rng, big, true, false, true, single) {
             Some(c) => c,
             None => {
                 rejected += 1;
@@ -416,7 +422,8 @@ fn gen(path: &str) {
     while made < n_ridge {
         let big = thorough && rng.gen_bool(0.3);
         let normalize = rng.gen_bool(0.5);
-        let c = match gen_case(&mut rng, big, false, normalize, normalize) {
+        let single = (made + 1) % 4 == 0;
+        let c = match gen_case(&mut rng, big, false, normalize, normalize, single) {
             Some(c) => c,
             None => {
                 rejected += 1;
